@@ -701,7 +701,8 @@ def _build_factored_term(remainder: e.Expr, pref, itmd_cls,
     """Builds the factored term."""
     tensor = itmd_cls.tensor(indices=itmd_indices, return_sympy=True)
     # resolve the Zero placeholder for residuals
-    if tensor.name == "Zero":
+    # (the tensor might hold a prefactor of -1 due to the antisymmetry)
+    if any(t.name == "Zero" for t in tensor.atoms(SymbolicTensor)):
         return e.Expr(0, **remainder.assumptions)
     return remainder * pref * tensor
 
